@@ -39,22 +39,28 @@ structure ILTI (s : Sys) : Prop where
       ∃ ob a, s.obs? o = some ob ∧ ob.ast = some a ∧ q.wake = ((a : Nat) : Time)
   /-- a polling ingest allocation process: its task's body is due (or ended) strictly before
   `ast + duration`, and the process is at most one step ahead of it -/
+  -- F13: … and is due at a whole instant (it re-arms while `now < aft = wake of the ended body + 1`)
   atRun : ∀ q ∈ s.procs, q.alive = true → 1 ≤ q.pc → ∀ t m preds o ret,
     q.k = .allocTask t m preds (some o) true ret →
     (∃ i, t = .ingest o i) ∧ ∃ r ∈ s.procs, r.pid = ret ∧ q.wake ≤ r.wake + 1 ∧
       ∃ ph tot, r.k = .doWork t m [] ph tot ∧ (r.alive = true → ph = 0 ∨ 2 ≤ ph) ∧
         ∃ ob a b, s.obs? o = some ob ∧ ob.ast = some a ∧ r.wake = ((b : Nat) : Time) ∧
-          (r.alive = true → ph = 0 → b = a) ∧ b + 1 ≤ a + ob.duration
+          (r.alive = true → ph = 0 → b = a) ∧ b + 1 ≤ a + ob.duration ∧ ∃ c : Nat, q.wake = (c : Time)
+  /-- F13: the recorded finish of an ingest task was stamped by its (ended) body, one step after
+  that body's last block -/
+  aftI : ∀ rec ∈ s.tasks, rec.id.isIngest = true → ∀ f, rec.aft = some f →
+    ∃ d ∈ s.procs, d.alive = false ∧ f = d.wake + 1 ∧ ∃ m preds ph tot, d.k = .doWork rec.id m preds ph tot
   entPend : ∀ e ∈ s.cl.pending, ∃ o, e.obs = some o ∧ ∃ q ∈ s.procs, q.alive = true ∧ q.pc = 0 ∧
     ∃ preds ret, q.k = .allocTask e.task e.mach preds (some o) true ret
   entRun : ∀ e ∈ s.cl.runOn, e.ing = true → ∃ o, e.obs = some o ∧ ∃ q ∈ s.procs, q.alive = true ∧
     1 ≤ q.pc ∧ ∃ preds ret, q.k = .allocTask e.task e.mach preds (some o) true ret
   /-- an allocation process whose observation's supervisor has ended polls strictly before the
   telescope's next block, and will find its task's body ended -/
+  -- F13: … and the finish that body recorded (its last block + 1) reached
   stale : ∀ e ∈ s.cl.ilEntries, ∀ o, e.obs = some o → o ∉ ilLiveAI s.procs →
     ∃ q ∈ s.procs, q.alive = true ∧ 1 ≤ q.pc ∧
       (∃ preds ret, q.k = .allocTask e.task e.mach preds (some o) true ret ∧
-        ∀ r ∈ s.procs, r.pid = ret → r.alive = false) ∧
+        ∀ r ∈ s.procs, r.pid = ret → r.alive = false ∧ r.wake + 1 ≤ q.wake) ∧
       ∀ t ∈ s.procs, t.k = .telescope → t.alive = true → q.wake < t.wake
 
 theorem mem_ilEntries {c : Cluster} {e : RunEntry} :
@@ -125,7 +131,7 @@ theorem ILTI.frame {s s' : Sys} (h : ILTI s) (hobs : s'.obs = s.obs)
   constructor
   · rw [hobs]; exact h.durPos
   · intro r' hr' o i hid
-    obtain ⟨r, hr, e1, e2, e3, e4⟩ := htasks r' hr' (by rw [hid]; rfl)
+    obtain ⟨r, hr, e1, e2, e3, e4, _⟩ := htasks r' hr' (by rw [hid]; rfl)
     obtain ⟨f1, f2, ob, hob, f3⟩ := h.taskR r hr o i (e1 ▸ hid)
     exact ⟨e2.trans f1, e3.trans f2, ob, by rw [ho]; exact hob, (e4 f1 f2).trans f3⟩
   · intro p hp o tl hk hpc
@@ -148,6 +154,10 @@ theorem ILTI.frame {s s' : Sys} (h : ILTI s) (hobs : s'.obs = s.obs)
       h.atRun q (hrel q hq (by rw [hk]; rfl)) hqa hqc t m preds o ret hk
     exact ⟨h1, r, hold r hr (Or.inr (by rw [hrk]; rfl)), h2, h3, ph, tot, hrk, h4, ob, a, b,
       by rw [ho]; exact h5, rest⟩
+  · intro r' hr' hi f hf
+    obtain ⟨r, hr, e1, _, _, _, e5⟩ := htasks r' hr' hi
+    obtain ⟨d, hd, hda, hfd, m, preds, ph, tot, hdk⟩ := h.aftI r hr (e1 ▸ hi) f (e5 ▸ hf)
+    exact ⟨d, hold d hd (Or.inr (by rw [hdk]; rfl)), hda, hfd, m, preds, ph, tot, by rw [e1]; exact hdk⟩
   · intro e he
     rw [hpend] at he
     obtain ⟨o, h1, q, hq, h2, h3, preds, ret, hk⟩ := h.entPend e he
